@@ -249,7 +249,7 @@ fn c17_smb1_gate() {
 
 //# harness: c17_smb2_gate
 //# props: C17 C01
-//# tier: thorough
+//# tier: extended
 //# timeout: 1400
 //# encodes: proto::smb::repl_smb2, NBTSession::{parse,repl}, SMB2Header::{parse,repl,get_payload}, SMB2NegotiateRequest::{parse,repl}, SMB2SessionSetupRequest::{parse,repl}, PacketDissector
 //# bounds: NetBIOS + SMB2 header + 12 body bytes, all symbolic (incl. all 32 flag bits), for the commands 2 and 0xffff (concrete per grid point; the gate itself is decided for all 65536 commands by c17_smb2_header); complete messages carrying the response flag are decided by c17_smb2_negotiate / c17_smb2_session_setup
